@@ -159,7 +159,10 @@ func (p *Prog) peerDriven() map[*ssa.Function]bool {
 
 // assertJustified decides one unchecked assertion.
 func (p *Prog) assertJustified(fn *ssa.Function, ta *ssa.TypeAssert) (bool, string) {
-	src := ta.X
+	return p.operandJustified(fn, ta.X, ta.AssertedType, 0)
+}
+
+func (p *Prog) operandJustified(fn *ssa.Function, src ssa.Value, T types.Type, depth int) (bool, string) {
 	for {
 		switch x := src.(type) {
 		case *ssa.ChangeInterface:
@@ -175,21 +178,49 @@ func (p *Prog) assertJustified(fn *ssa.Function, ta *ssa.TypeAssert) (bool, stri
 		name := CalleeName(&call.Call)
 		switch {
 		case name == "sync.(*Pool).Get":
-			return p.poolHoldsOnly(fn, ta.AssertedType)
+			return p.poolHoldsOnly(fn, T)
 		case strings.HasSuffix(name, "Pipe.GetPrivate"):
-			return p.privateIsAlways(fn, ta.AssertedType)
+			return p.privateIsAlways(fn, T)
 		}
 	}
 	// a documented result type of the standard library
 	if ex, ok := src.(*ssa.Extract); ok {
 		if call, ok := ex.Tuple.(*ssa.Call); ok {
-			if ok, why := p.stdlibContract(call, ex.Index, ta.AssertedType); ok || why != "" {
+			if ok, why := p.stdlibContract(call, ex.Index, T); ok || why != "" {
 				return ok, why
 			}
 		}
 	}
+	// a private helper handed the value: justified where it is called (all call sites)
+	if par, ok := src.(*ssa.Parameter); ok && depth < 2 && fn.Parent() == nil && lowerName(fn.Name()) {
+		idx := -1
+		for k, q := range fn.Params {
+			if q == par {
+				idx = k
+			}
+		}
+		if node := p.CG().Nodes[fn]; node != nil && idx >= 0 {
+			n, why := 0, ""
+			all := true
+			for _, e := range node.In {
+				if e.Site == nil || e.Site.Common().StaticCallee() != fn || idx >= len(e.Site.Common().Args) {
+					all = false
+					continue
+				}
+				n++
+				ok, w := p.operandJustified(e.Caller.Func, e.Site.Common().Args[idx], T, depth+1)
+				if !ok {
+					all = false
+				}
+				why = w
+			}
+			if n > 0 && all {
+				return true, why + " (at every call of " + p.FuncName(fn) + ")"
+			}
+		}
+	}
 	// the operand's possible dynamic types, from the values that flow into it
-	return p.dynTypesSatisfy(fn, src, ta.AssertedType)
+	return p.dynTypesSatisfy(fn, src, T)
 }
 
 // poolHoldsOnly: in the package of fn, every sync.Pool is created with a New that returns a
@@ -374,9 +405,60 @@ func (p *Prog) privateIsAlways(fn *ssa.Function, T types.Type) (bool, string) {
 	if ap == nil {
 		return false, "no AddPipe in " + rel
 	}
+	// a private helper that fills the slot on all its paths ("make and configure the
+	// per-pipe state") counts as the SetPrivate call it contains
+	var always func(g *ssa.Function, d int) bool
+	always = func(g *ssa.Function, d int) bool {
+		if g == nil || g.Blocks == nil || d > 2 {
+			return false
+		}
+		var in []ssa.Instruction
+		EachInstr(g, func(i ssa.Instruction) {
+			c := CallOf(i)
+			if c == nil {
+				return
+			}
+			if _, isGo := i.(*ssa.Go); isGo {
+				return
+			}
+			if strings.HasSuffix(CalleeName(c), "Pipe.SetPrivate") {
+				in = append(in, i)
+			} else if sc := c.StaticCallee(); sc != nil && sc.Pkg == g.Pkg && sc != g && always(sc, d+1) {
+				in = append(in, i)
+			}
+		})
+		if len(in) == 0 {
+			return false
+		}
+		ok := true
+		EachInstr(g, func(i ssa.Instruction) {
+			if _, isRet := i.(*ssa.Return); !isRet || i.Block() == g.Recover {
+				return
+			}
+			dom := false
+			for _, s := range in {
+				if InstrDominates(s, i) {
+					dom = true
+				}
+			}
+			if !dom {
+				ok = false
+			}
+		})
+		return ok
+	}
 	var sets []ssa.Instruction
 	EachInstr(ap, func(in ssa.Instruction) {
-		if c := CallOf(in); c != nil && strings.HasSuffix(CalleeName(c), "Pipe.SetPrivate") {
+		c := CallOf(in)
+		if c == nil {
+			return
+		}
+		if _, isGo := in.(*ssa.Go); isGo {
+			return
+		}
+		if strings.HasSuffix(CalleeName(c), "Pipe.SetPrivate") {
+			sets = append(sets, in)
+		} else if sc := c.StaticCallee(); sc != nil && sc.Pkg == ap.Pkg && always(sc, 1) {
 			sets = append(sets, in)
 		}
 	})
